@@ -310,4 +310,28 @@ Proof.
   destruct (span p t) as [n r]. exact IH.
 Qed.
 
+(* ---------- one-step equations (so that proofs rewrite instead of unfolding everything) ---------- *)
+Lemma ev_cat a b pos rest c k : ev (RCat a b) pos rest c k = ev a pos rest c (fun p r' c' => ev b p r' c' k).
+Proof. reflexivity. Qed.
+Lemma ev_alt a b pos rest c k : ev (RAlt a b) pos rest c k = match ev a pos rest c k with MNo => ev b pos rest c k | res => res end.
+Proof. reflexivity. Qed.
+Lemma ev_group n a pos rest c k : ev (RGroup n a) pos rest c k = ev a pos rest c (fun p r' c' => k p r' (cap_set n (pos, p) c')).
+Proof. reflexivity. Qed.
+Lemma ev_look a pos rest c k :
+  ev (RLook a) pos rest c k = match ev a pos rest c (fun p _ c' => MYes p c') with MYes _ c' => k pos rest c' | MNo => MNo | MFuel => MFuel end.
+Proof. reflexivity. Qed.
+Lemma ev_bol pos rest c k : ev RBol pos rest c k = if Nat.eqb pos 0 then k pos rest c else MNo.
+Proof. reflexivity. Qed.
+Lemma ev_eps pos rest c k : ev REps pos rest c k = k pos rest c.
+Proof. reflexivity. Qed.
+Lemma ev_eol pos rest c k :
+  ev REol pos rest c k = match rest with [] => k pos rest c | [y] => if (y =? 10)%N then k pos rest c else MNo | _ => MNo end.
+Proof. reflexivity. Qed.
+Lemma ev_one a p : one a p -> forall pos rest c k,
+  ev a pos rest c k = match rest with y :: t => if p y then k (S pos) t c else MNo | [] => MNo end.
+Proof. intros O. exact O. Qed.
+
+Lemma span_ext p q : (forall y, p y = q y) -> forall s, span p s = span q s.
+Proof. intros E. induction s as [|y t IH]; cbn [span]; [reflexivity|]. rewrite E, IH. reflexivity. Qed.
+
 End Eval.
